@@ -193,8 +193,8 @@ def h12b_codec(r0, c0, nr, nc, slack_r, slack_c):
 
 
 HARNESSES = [
-    Harness("H12a", h12a_merge, dict(R=Cases([2, 3]), C=Cases([1, 2, 3]), r0=IntDom(), c0=IntDom(), r1=IntDom(), c1=IntDom()),
-            bounds="every rectangle (not 1x1) inside tables of shape {2,3} x {1,2,3}; range text from the real xl_range",
+    Harness("H12a", h12a_merge, lambda tier: dict(R=Cases([2, 3] if tier == "quick" else [2, 3, 4]), C=Cases([1, 2, 3] if tier == "quick" else [1, 2, 3, 4]), r0=IntDom(), c0=IntDom(), r1=IntDom(), c1=IntDom()),
+            bounds="every rectangle (not 1x1) inside tables of shape {2,3} x {1,2,3} (quick) / {2,3,4} x {1..4} (thorough); range text from the real xl_range",
             outside=["reload through real archives", "shapes beyond 3x3"]),
     Harness("H12a-list", h12a_list, dict(r0=IntDom(), c0=IntDom(), r1=IntDom(), c1=IntDom(), s0=IntDom(), d0=IntDom(), s1=IntDom(), d1=IntDom()),
             bounds="every pair of disjoint rectangles in a 3x3 table, given as a list"),
